@@ -266,6 +266,24 @@ class H:
     def implies(self, p, q):
         return (~p) | q
 
+    # ---- probes ------------------------------------------------------------------------------
+    def concolic(self):
+        """context manager: inside it, decisions follow the current witness and are not explored (for probe
+        operations whose own outcome does not matter, e.g. the aliasing probes of C04)"""
+        h = self
+
+        class _C:
+            def __enter__(self_inner):
+                if h.sym is not None:
+                    self_inner.old = h.sym.concolic
+                    h.sym.concolic = True
+
+            def __exit__(self_inner, *a):
+                if h.sym is not None:
+                    h.sym.concolic = self_inner.old
+                return False
+        return _C()
+
     # ---- rounding slack ----------------------------------------------------------------------
     @property
     def ulp(self):
